@@ -1,7 +1,7 @@
 """HLL rules (C03, C04): register max-store discipline, merge loops, nibble decode agreement, successor-local rule,
 coupon constants, mode byte inverse; union: refresh discipline (A6), lg_k rule, replace-only-if-empty, take-over guard."""
 import json
-from astu import strip, strip_all, walk, walkp, txt, short, is_this_field, field_name, stmts_of, always_throws, functions_by, local_decls
+from astu import C, ctxt, gt_pair, eq_const, strip, strip_all, walk, walkp, txt, short, is_this_field, field_name, stmts_of, always_throws, functions_by, local_decls
 from vlib.core import ob
 
 DERIVED = ("curMin_", "numAtCurMin_", "kxq0_", "kxq1_")
@@ -504,15 +504,17 @@ def union_replace(facts):
                     a = n.get("args") or [n.get("l"), n.get("r")]
                     if txt(a[0]) == "gadget_":
                         conds = []
+                        cnodes = []
                         chain = list(parents) + [n]
                         for i, p in enumerate(chain[:-1]):
                             if p.get("k") == "If" and p.get("t") is chain[i + 1]:
                                 conds += [x.strip() for x in split_and(p["c"])]
+                                cnodes += split_and_nodes(p["c"])
                         key = "hll_union_alloc::update(&&):take-over"
                         need = {
                             "union empty (refreshed)": lambda c: c in ("is_empty()",),
                             "input is HLL_8": lambda c: "get_target_type()" in c and "==" in c and "HLL_8" in c.upper() or c.endswith("==2)") and "get_target_type" in c,
-                            "input lg_k <= lg_max_k": lambda c: "get_lg_config_k()" in c and "<=" in c and "lg_max_k_" in c,
+                            "input lg_k <= lg_max_k": lambda c: any(g and not g[2] and "lg_max_k_" in txt(g[0]) and "get_lg_config_k()" in txt(g[1]) for g in [gt_pair(x) for x in cnodes if txt(x).strip() == c]),
                             "input in HLL mode or lg_k == lg_max_k": lambda c: "||" in c and "get_current_mode()" in c and "get_lg_config_k()" in c and "==" in c,
                         }
                         missing = [k for k, f in need.items() if not any(f(c) for c in conds)]
@@ -522,6 +524,13 @@ def union_replace(facts):
                             out.append(ob("hll.union-replace", key, n["loc"], "violated", "the rvalue input replaces the gadget without the guard(s): %s (guards present: %s): e.g. a LIST-mode sketch with smaller lg_k would silently lower the union's lg_k" % ("; ".join(missing), conds), fn["qname"]))
             walkp(fn["body"], visit2)
     return out
+
+
+def split_and_nodes(c):
+    c = strip(c)
+    if isinstance(c, dict) and c.get("k") == "Bin" and c.get("op") == "&&":
+        return split_and_nodes(c["l"]) + split_and_nodes(c["r"])
+    return [c]
 
 
 def split_and(c):
@@ -611,9 +620,9 @@ def estimator_operands(facts):
                 for i in range(len(chain) - 2, -1, -1):
                     p = chain[i]
                     if p.get("k") == "If" and p.get("t") is chain[i + 1]:
-                        c = strip(p["c"])
-                        if c.get("k") == "Bin" and c.get("op") == ">" and txt(c["l"]) == new:
-                            guard = c
+                        gp = gt_pair(p["c"])
+                        if gp and gp[2] and txt(gp[0]) == new:
+                            guard = {"r": gp[1]}
                             break
                 if guard is None:
                     out.append(ob("hll.estimator-operand", key, n["loc"], "violated", "the incremental estimator update is not guarded by `%s > <old value>`" % new, fn["qname"]))
